@@ -73,13 +73,25 @@ func specListMatches(kind int, list []string, reqs []string, sub string, emptyMe
 	return true
 }
 
-func c01List(key string, n int) []string {
-	if n == 0 && nondetBool(key+".nil") {
+// c01ListQ: like c01List, but the nil-vs-empty distinction is explored in the thorough tier only.
+func c01ListQ(key string, n int, idx ...int) []string {
+	if vbound(0, 1) == 1 {
+		return c01List(key, n, idx...)
+	}
+	l := make([]string, n)
+	for i := range l {
+		l[i] = nondetString(key, append(append([]int{}, idx...), i)...)
+	}
+	return l
+}
+
+func c01List(key string, n int, idx ...int) []string {
+	if n == 0 && nondetBool(key+".nil", idx...) {
 		return nil
 	}
 	l := make([]string, n)
 	for i := range l {
-		l[i] = nondetString(key, i)
+		l[i] = nondetString(key, append(append([]int{}, idx...), i)...)
 	}
 	return l
 }
